@@ -197,6 +197,102 @@ def _run_chunk(ctx: F.Ctx, case) -> F.Outcome:
     return out
 
 
+# ---- a zone with daylight-saving time ------------------------------------------------------
+# freezegun knows fixed offsets only, so this family runs WITHOUT it, in a forked child: the
+# process's real zone is set with TZ + tzset(), and the module's `dt` is replaced by a stand-in
+# whose datetime.now() is a fixed instant expressed through the real zone rules (timestamp() and
+# fromtimestamp() are the real ones).  "The previous six days" are calendar days, also when a
+# day of the window has 23 or 25 hours.
+_DST_ZONES = {
+    "us-eastern": ("EST5EDT,M3.2.0,M11.1.0", [(2026, 11, 1, 23, 30), (2026, 11, 4, 23, 40), (2026, 11, 2, 0, 20), (2026, 3, 9, 0, 30),
+                                              (2026, 3, 8, 12, 0), (2026, 3, 14, 0, 5), (2026, 7, 1, 12, 0), (2026, 11, 1, 1, 30)]),
+    "central-europe": ("CET-1CEST,M3.5.0,M10.5.0/3", [(2026, 10, 25, 23, 30), (2026, 3, 30, 0, 30), (2026, 10, 26, 0, 10), (2026, 1, 15, 9, 0)]),
+    "lord-howe-half-hour": ("LHST-10:30LHDT-11,M10.1.0,M4.1.0", [(2026, 4, 5, 23, 45), (2026, 10, 5, 0, 10)]),
+}
+
+
+def _dst_child(rule, instants, real_map, real_args):
+    import os
+    import time
+    import types
+
+    H.unfreeze()
+    os.environ["TZ"] = rule
+    time.tzset()
+    import datetime as real_dt
+
+    import zorg.service.file_groups as fg
+
+    epoch = [0.0]
+
+    class _DT(real_dt.datetime):
+        @classmethod
+        def now(cls, tz=None):
+            b = real_dt.datetime.fromtimestamp(epoch[0], tz)
+            return cls(b.year, b.month, b.day, b.hour, b.minute, b.second, b.microsecond, tzinfo=b.tzinfo, fold=b.fold)
+
+        @classmethod
+        def today(cls):
+            return cls.now()
+
+        @classmethod
+        def utcnow(cls):
+            b = real_dt.datetime.fromtimestamp(epoch[0], real_dt.timezone.utc).replace(tzinfo=None)
+            return cls(b.year, b.month, b.day, b.hour, b.minute, b.second, b.microsecond)
+
+    class _D(real_dt.date):
+        @classmethod
+        def today(cls):
+            b = real_dt.datetime.fromtimestamp(epoch[0])
+            return cls(b.year, b.month, b.day)
+
+    shim = types.ModuleType("datetime_stand_in")
+    for name in dir(real_dt):
+        if not name.startswith("__"):
+            setattr(shim, name, getattr(real_dt, name))
+    shim.datetime, shim.date = _DT, _D
+    fg.dt = shim
+    out = []
+    for (y, mo, d, h, mi) in instants:
+        epoch[0] = time.mktime((y, mo, d, h, mi, 0, 0, 0, -1))
+        try:
+            got = [str(x) for x in fg.expand_file_group_paths(real_args, file_group_map=real_map)]
+        except Exception as e:  # noqa: BLE001
+            got = f"EXC {type(e).__name__}: {e}"
+        lt = time.localtime(epoch[0])
+        out.append(([lt.tm_year, lt.tm_mon, lt.tm_mday, lt.tm_hour, lt.tm_min, lt.tm_isdst], got))
+    return out
+
+
+def _dst_case(ctx: F.Ctx, zone: str) -> F.Outcome:
+    _, names, _ = _alphabets(ctx.seed)
+    rule, instants = _DST_ZONES[zone]
+    gmap = {0: [("ymd", i, ".zo") for i in range(7)] + [("grp", 1)], 1: [("ymd", 1, "_b.zo"), ("dayfmt", 6, "%Y", "/f.zo")], 2: []}
+    real_map = {names[k]: [_member_text(m, names) for m in gmap[k]] for k in gmap}
+    args = [("grp", 0), ("grp", 1)]
+    real_args = ["@" + names[0], "@" + names[1]]
+    r = H.run_child(_dst_child, rule, instants, real_map, real_args, capture=False)
+    if r.status != "ok":
+        raise H.HarnessError(f"dst child failed: {r.status} {r.exc}")
+    out = F.Outcome(n_evals=0)
+    obs = []
+    for (y, mo, d, h, mi), (local, got) in zip(instants, r.value):
+        if local[:5] != [y, mo, d, h, mi]:
+            # (a wall-clock time that does not exist on that day: mktime moved it)
+            continue
+        want = [str(Path(x)) for x in _model_expand(args, gmap, dt.date(y, mo, d))]
+        out.n_evals += 1
+        out.n_nontrivial += 1
+        obs.append(got)
+        if got != want and out.ok:
+            out.ok = False
+            out.sig = "expand-differs-from-flatten-model:daylight-saving-zone"
+            out.detail = {"TZ": rule, "local_time": "%04d-%02d-%02d %02d:%02d" % (y, mo, d, h, mi), "dst_in_effect": bool(local[5]),
+                          "file_group_map": real_map, "args": real_args, "expected": want, "observed": got}
+    out.obs = H.digest(obs)
+    return out
+
+
 def _parser_case(ctx: F.Ctx) -> F.Outcome:
     """clack_parser infers `edit` for a leading @group and @default for none."""
     from clack import clack_envvars_set
@@ -234,10 +330,14 @@ def _parser_case(ctx: F.Ctx) -> F.Outcome:
 def _run_case(ctx: F.Ctx, case) -> F.Outcome:
     if case[0] == "parser":
         return _parser_case(ctx)
+    if case[0] == "dst":
+        return _dst_case(ctx, case[1])
     return _run_chunk(ctx, case[1:])
 
 
 def _sample(ctx, case):
+    if case[0] == "dst":
+        return {"kind": "zone with daylight-saving time", "TZ": _DST_ZONES[case[1]][0], "local_instants": _DST_ZONES[case[1]][1]}
     if case[0] == "parser":
         return {"kind": "clack_parser argv", "argv": ["zorg", "@g1"]}
     base, names, argf, p, a1, a2, a3, arg_alpha, ordinary = _build(ctx)
@@ -254,7 +354,7 @@ def _sample(ctx, case):
 
 def run(ctx: F.Ctx):
     base, names, argf, p, a1, a2, a3, arg_alpha, ordinary = _build(ctx)
-    cases = [["parser"]] + [
+    cases = [["parser"]] + [["dst", z] for z in _DST_ZONES] + [
         ["chunk", i3, i2] for i3 in range(len(a3)) for i2 in range(len(a2))
     ]
     rep = F.explore(
